@@ -40,10 +40,10 @@ func debugCase(line string) {
 	}
 	fmt.Println(T)
 	for f := 0; f < 4; f++ {
-		text := render(f, d)
-		if flatMode && f != 1 {
+		if (flatMode && f != 1) || (in.K == "corrupt" && f != in.Fmt) {
 			continue
 		}
+		text := render(f, d)
 		if in.K == "corrupt" {
 			if f != in.Fmt {
 				continue
